@@ -57,6 +57,7 @@ class Machine(object):
     self.oracles = list(oracles)
     self.handouts = []
     self.buffers = {}
+    self.shared_stores = {}
     self.inconclusive = []
     self.violation = None
     self.clock = world.SimClock(plan.get("run_seed", 0),
@@ -223,7 +224,13 @@ class Machine(object):
       elif pre == "list":
         h.pre = D.S.tolist()
       elif pre == "store":
-        h.store = world.PointStore(D.S, mixed=bool(D.desc.get("int_rows")))
+        shared = self.shared_stores.get(op["pre_data"]) if op.get("share_store") else None
+        if shared is not None:
+          h.store = shared            # two estimators read through the same callable object
+          self.cov["stores_shared_between_handles"] += 1
+        else:
+          h.store = world.PointStore(D.S, mixed=bool(D.desc.get("int_rows")))
+          self.shared_stores.setdefault(op["pre_data"], h.store)
         h.pre = h.store
       params["preprocessor"] = h.pre
       ev["pre"] = pre
